@@ -258,6 +258,14 @@ SPARSE_ENTRIES = [
      [[512, 1000], [9000, 1024], [20000, 512], [30000, 7], [39000, 1000]]],
     ["sp/after.txt", AE_IFREG, 0o600, 1, 2, 2001, b"after the sparse file\n", b"", b"", 0, []],
 ]
+# incompressible body: fills the dictionaries/tables of the decoders (LZW code table reset, several lz4/zstd/xz
+# blocks, deflate stored blocks), followed by a small entry that must still be found
+import random as _random
+_rnd = _random.Random(20261001)
+BIGR_ENTRIES = [
+    ["rnd/noise.bin", AE_IFREG, 0o644, 1, 2, 3000, bytes(_rnd.getrandbits(8) for _ in range(180000)), b"", b"", 7001, []],
+    ["rnd/after.txt", AE_IFREG, 0o600, 1, 2, 3001, b"after the noise\n" * 3, b"", b"", 0, []],
+]
 WRITER_SPECS = [
     ("ustar", "", "", STD_ENTRIES), ("pax", "", "", STD_ENTRIES), ("paxr", "", "", STD_ENTRIES),
     ("gnutar", "", "", STD_ENTRIES), ("v7tar", "", "", STD_ENTRIES),
@@ -273,6 +281,8 @@ WRITER_SPECS = [
     ("ustar", "", "", BIG_ENTRIES), ("newc", "", "", BIG_ENTRIES), ("zip", "", "zip:compression=store", BIG_ENTRIES),
     ("pax", "gzip", "", BIG_ENTRIES),
     ("pax", "", "", SPARSE_ENTRIES), ("paxr", "bzip2", "", SPARSE_ENTRIES),
+] + [("ustar", flt, "", BIGR_ENTRIES) for flt in ("compress", "gzip", "bzip2", "xz", "zstd", "lz4", "lzip", "lzma")] + [
+    ("zip", "", "", BIGR_ENTRIES), ("7zip", "", "", BIGR_ENTRIES),
 ]
 
 def writer_archives(mk_exe):
@@ -285,7 +295,7 @@ def writer_archives(mk_exe):
         v = vparse(l)
         if v[0] < -20 or v[-2] < -20:
             continue
-        res.append(("w:%s%s%s%s" % (f, "+" + flt if flt else "", "/" + opt if opt else "", "#big" if ents is BIG_ENTRIES else "#sparse" if ents is SPARSE_ENTRIES else ""), v[-1]))
+        res.append(("w:%s%s%s%s" % (f, "+" + flt if flt else "", "/" + opt if opt else "", "#big" if ents is BIG_ENTRIES else "#sparse" if ents is SPARSE_ENTRIES else "#noise" if ents is BIGR_ENTRIES else ""), v[-1]))
     return res
 
 def read_case(arc, source=(1,), rplan=(), has_skip=0, has_seek=0, faults=(), consume=(0, 4096, 0), noraw=0):
